@@ -412,6 +412,11 @@ class MetaSim(SimEngine):
             return [ra.choice(["eq", "ge", "le"]), ["f", ra.choice(ints)["name"]], ["int", ra.randint(0, 4)]]
 
         script = {"engine": self.name, "kind": kind, "world": world}
+        re_ = stream(seed, "earlier-solve")
+        if re_.random() < 0.3:
+            script["earlier_solve"] = {
+                "behaviours": [re_.choice(["ok", "ok", "INTERNAL_ERROR", "MEMOUT", "UNSOLVABLE_INCOMPLETELY"]) for _ in range(6)],
+                "timeout": re_.choice([None, 2, 6, 15, 40])}
         if kind == "if":
             world["goals"] = [goal() for _ in range(ra.choice([0, 1, 1]))]
             x0_init = next(v[1] for f_, v in init if f_[1] == "x0")
@@ -517,6 +522,18 @@ class MetaSim(SimEngine):
         except Exception as ex:
             ctx.fail("C31.factory", f"Factory.OneshotPlanner(name={ename!r}) raised {type(ex).__name__}: {str(ex)[:200]}",
                      cls=type(ex).__name__)
+        pre = script.get("earlier_solve")
+        if pre:
+            # an EARLIER solve on the same planner object, with its own peer failures and timeout: whatever it did must
+            # not leak into the solve that is judged
+            StubPlanner.scenario = Scenario(clock, pre.get("behaviours", []), {}, script["latency"], script["rate"])
+            try:
+                planner.solve(problem, timeout=pre.get("timeout"))
+            except Exception as ex:
+                ctx.ev("earlier solve raised", type(ex).__name__)
+            ctx.probe("earlier-solve-on-the-same-planner")
+            StubPlanner.scenario = sc
+            t_enter = clock.now
         raised = None
         res = None
         try:
